@@ -254,9 +254,12 @@ package shimagent
 //@ ghost func certsNonNil(s *Server) bool = forall(h#bytes, h in dom(s.certs), s.certs[h] != nil)
 //@ ghost func cacheOff(s *Server) bool = !s.noUpstreamSSHCACert ==> mapdom(s.upstreamSSHCACertCache) == nokeys(s.upstreamSSHCACertCache)
 
+//@ ghost func cblob(c *certificate) int = contentOf(elems(c.Blob), off(c.Blob), len(c.Blob))
 //@ func marshalAgentKey(key)
-//@   requires key != nil
+//@   requires key != nil && pl(key) != 0
+//@   modifies addrof(key).Comment
 //@   ensures result != nil
+//@   ensures typeof(key) == *certificate ==> (akBlob(result) == cblob(key.(*certificate)) && result.Comment == key.(*certificate).Comment)
 //@   ensures typeof(key) != *agent.Key ==> (fresh(result) && akBlob(result) == blobid(key))
 //@   ensures typeof(key) == *agent.Key ==> result == key.(*agent.Key)
 
